@@ -62,7 +62,7 @@ func (o conOp) do(r *Router) string {
 		// through a Prefix that has a middleware of its own, handing over the caller's list the way an application
 		// does: a slice of one longer list (spare capacity behind it) that other goroutines pass as well
 		if v, bad := Guard(func() {
-			r.Prefix("/pp", hv.MW{Name: "D"}).Handle(o.P, hv.Route(HID("/pp"+o.P, o.Ms)), c06Callers[:1], o.Ms...)
+			c06Pfx.Handle(o.P, hv.Route(HID("/pp"+o.P, o.Ms)), c06Callers[:1], o.Ms...)
 		}); bad {
 			return fmt.Sprintf("panic(%s)", PanicClass(v))
 		}
@@ -116,9 +116,14 @@ func (o conOp) do(r *Router) string {
 // one element in use, room for three more. mux may read it; the room behind it belongs to the caller.
 var c06Callers []types.Middleware[*hv.H]
 
-func c06NewCallers() {
+// c06Pfx is the Prefix object the "phandle" operations share, the way an application keeps `api := r.Prefix(...)`
+// around and registers through it from several goroutines; made afresh with the router of every execution.
+var c06Pfx *mux.Prefix[*hv.H]
+
+func c06NewCallers(r *Router) {
 	c06Callers = make([]types.Middleware[*hv.H], 1, 4)
 	c06Callers[0] = hv.MW{Name: "M1"}
+	c06Pfx = r.Prefix("/pp", hv.MW{Name: "D"})
 }
 
 func c06CallersWritten() string {
@@ -200,6 +205,8 @@ var (
 	r12 = conOp{K: "serve", Req: hv.Req{Method: "HEAD", Path: "/posts/author"}}
 	r14 = conOp{K: "serve", Req: hv.Req{Method: "GET", Path: "/rx/7"}}
 	r15 = conOp{K: "url", Strict: true, P: "/rx/{id:\\d+}", Params: map[string]string{"id": "7"}}
+	r16 = conOp{K: "serve", Req: hv.Req{Method: "OPTIONS", Path: "*"}} // answered by the root node, whose method set every registration rewrites
+	r17 = conOp{K: "serve", Req: hv.Req{Method: "GET", Path: "*"}}
 )
 
 func c06Scenarios(quick bool) []scenario {
@@ -244,7 +251,7 @@ func c06Scenarios(quick bool) []scenario {
 	}
 	// ... in particular the first two uses of a regexp parameter (matching, validating), and two strict URLs of
 	// different patterns (anything URL keeps per tree rather than per call)
-	for _, ts := range [][][]conOp{{{r14}, {r14}}, {{r14}, {r15}}, {{r15}, {r15}}, {{r7}, {r11}}, {{r15}, {r7}}, {{r15}, {r10}}, {{w1}, {r14}}, {{w3}, {r15}}} {
+	for _, ts := range [][][]conOp{{{r14}, {r14}}, {{r14}, {r15}}, {{r15}, {r15}}, {{r7}, {r11}}, {{r15}, {r7}}, {{r15}, {r10}}, {{w1}, {r14}}, {{w3}, {r15}}, {{w1}, {r16}}, {{w3}, {r16}}, {{w6}, {r16}}, {{w5a}, {r16}}, {{w3}, {r17}}, {{w2}, {r16}}} {
 		out = append(out, scenario{Name: name(ts...), Cfg: cfg, Setup: setup, Threads: ts, Bound: bound2, Prop: "C06"})
 	}
 	w3s := [][]conOp{{w1}, {w3}, {w4a}, {w5b}, {w6}}
@@ -339,7 +346,7 @@ func runScenario(raw json.RawMessage) (any, error) {
 		for _, ops := range sc.Threads {
 			for _, op := range ops {
 				base := heldLocks() // process-wide counter: compare with its value before the call
-				c06NewCallers()
+				c06NewCallers(r0)
 				op.do(r0)
 				if w := c06CallersWritten(); w != "" {
 					out.Viols = append(out.Viols, explore.Violation{Property: sc.Prop, Clause: sc.Prop + ".fault", Class: "caller-memory-written", Config: sc.Cfg.String(), History: []string{sc.Name},
@@ -365,7 +372,7 @@ func runScenario(raw json.RawMessage) (any, error) {
 			return r
 		}
 		r, _, _ := buildHistory(sc.Cfg, sc.Setup)
-		c06NewCallers()
+		c06NewCallers(r)
 		var res seqResult
 		res.results = make([]string, len(flat))
 		for _, k := range order {
@@ -384,7 +391,7 @@ func runScenario(raw json.RawMessage) (any, error) {
 				return explore.ExecResult{Viols: []explore.Violation{{Property: sc.Prop, Clause: sc.Prop + ".setup", Class: "setup-panic", Observed: perr, Expected: "setup succeeds"}}}
 			}
 			types.VerifDrainPool()
-			c06NewCallers()
+			c06NewCallers(r)
 			calls := make([]callRec, len(flat))
 			bodies := make([]func(), n)
 			k0 := 0
